@@ -50,7 +50,7 @@ def untoks(line: str) -> list[str]:
 
 class World:
     def __init__(self, ctx: Ctx, kind: str, ci: int, mode: str, keys: tuple, rer: bool, drv: LeanDriver, clock: VirtualClock, retries: int = 0,
-                 reg: str = "disabled"):
+                 reg: str = "disabled", noargs: bool = False):
         from pynenc.conf.config_task import ConcurrencyControlType as C
 
         self.ctx, self.kind, self.mode, self.keys, self.rer, self.drv, self.clock = ctx, kind, mode, keys, rer, drv, clock
@@ -61,7 +61,8 @@ class World:
             opts["registration_concurrency"] = C(reg)
         if keys:
             opts["key_arguments"] = keys
-        self.task = self.app.task(T.cc_body, **opts)
+        self.noargs = noargs
+        self.task = self.app.task(T.cc_noargs if noargs else T.cc_body, **opts)
         self.o = self.app.orchestrator
         self.tname = self.task.task_id.key
         drv.ask("o.reset")
@@ -253,10 +254,10 @@ def scenario_random(w: World, nsteps: int) -> None:
         w.clock.advance(1000)
         r = rng.random()
         if r < 0.30:
-            w.submit_single(draw_args(rng))
+            w.submit_single({} if w.noargs else draw_args(rng))
             w.check_statuses("single submission")
-        elif r < 0.42 and w.reg != "disabled":
-            w.submit_single(draw_args(rng))         # the batch path refuses tasks with registration concurrency
+        elif r < 0.42 and (w.reg != "disabled" or w.noargs):
+            w.submit_single({} if w.noargs else draw_args(rng))         # the batch path refuses tasks with registration concurrency
             w.check_statuses("single submission")
         elif r < 0.42:
             same = draw_args(rng)
@@ -371,6 +372,46 @@ def two_paths_probe(ctx: Ctx) -> None:
                 flush(app)
 
 
+def awaited_same_key_probe(ctx: Ctx) -> None:
+    """the OTHER claim path: invocations a running parent waits for are claimed first (`get_blocking_invocations_to_run`).  Two of
+    them share a concurrency key: ONE poll of ONE runner must not hand out both (the second is blocked like any other)"""
+    from pynenc.conf.config_task import ConcurrencyControlType as C
+
+    for kind in ("mem", "sqlite"):
+        for mode, rer in ((C.KEYS, False), (C.KEYS, True), (C.ARGUMENTS, False), (C.TASK, True)):
+            app = make_app(kind, ctx.tmp, app_id=f"c06await{kind}{ctx.rng.randrange(10**6)}")
+            opts: dict[str, Any] = {"running_concurrency": mode, "reroute_on_concurrency_control": rer}
+            if mode == C.KEYS:
+                opts["key_arguments"] = ("k",)
+            child = app.task(T.cc_body, **opts)
+            parent_t = app.task(T.add)
+            o = app.orchestrator
+            parent = parent_t(1, 2)
+            o.set_invocation_status(parent.invocation_id, trs_status("pending"), rctx("rP"))
+            o.set_invocation_status(parent.invocation_id, trs_status("running"), rctx("rP"))
+            kids = [child("a", "d", "e"), child("a", "d", "e") if mode != C.KEYS else child("a", "x", "e"), child("zz", "d", "e")]
+            if len({k.invocation_id for k in kids}) < 3:
+                continue
+            o.waiting_for_results(parent.invocation_id, [k.invocation_id for k in kids])
+            got = [i.invocation_id for i in o.get_invocations_to_run(4, rctx("rA"))]
+            st = {k.invocation_id: o.get_invocation_status(k.invocation_id).value for k in kids}
+            ctx.count()
+            ctx.distinct((kind, "awaited-same-key", mode.value, rer))
+            same = [kids[0].invocation_id, kids[1].invocation_id]
+            held = [i for i in same if st[i] in ("pending", "running")]
+            if len(held) > 1:
+                ctx.report(f"one-poll-claims-two-same-key[{kind}]:awaited", f"[{kind}] a running parent waits for two invocations with the same concurrency key ({mode.value}) and a third one: ONE poll of "
+                                                                          f"one runner handed out {len(got)} invocations and left BOTH same-key ones {[st[i] for i in same]} (third: {st[kids[2].invocation_id]})",
+                           {"backend": kind, "scenario": "awaited-same-key", "mode": mode.value, "reroute": rer})
+            flush(app)
+
+
+def trs_status(name: str):  # type: ignore[no-untyped-def]
+    from pynenc.invocation.status import InvocationStatus
+
+    return InvocationStatus(name)
+
+
 def two_pollers_probe(ctx: Ctx) -> None:
     """known-finding probe (b): two pollers, two same-key invocations, in-memory line-level schedules"""
     from pynenc.broker.mem_broker import MemBroker
@@ -458,8 +499,19 @@ def run(ctx: Ctx) -> None:
                     w.close()
                 nd += w.nd
                 ctx.sample({"backend": kind, "mode": mode, "keys": keys, "reroute": rer, "registration": reg, "invocations": len(w.invs)})
+        # a task WITHOUT parameters under ARGUMENTS / KEYS control: its key dictionary is empty, every invocation has the same key
+        for ci, (mode, keys, rer) in enumerate([("arguments", (), True), ("arguments", (), False)]):
+            for kind in ("mem", "sqlite"):
+                w = World(ctx, kind, 200 + ci, mode, keys, rer, drv, clock, noargs=True)
+                try:
+                    scenario_random(w, 40 if ctx.quick else 200)
+                finally:
+                    w.close()
+                nd += w.nd
+                ctx.sample({"backend": kind, "mode": mode, "no_parameters": True, "reroute": rer, "invocations": len(w.invs)})
         ctx.obligation("correspondence: submissions, polls, worker starts, finishes on Mem and SQLite == CC model", nd == 0, f"{nd} disagreements")
         two_paths_probe(ctx)
+        awaited_same_key_probe(ctx)
         two_pollers_probe(ctx)
     finally:
         clock.uninstall()
